@@ -125,6 +125,7 @@ type checkStats struct {
 	spotReads        int
 	transientDropped int
 	midChecks        int
+	emptySnapshots   int
 }
 
 // world is what the harness knows about the histories of a case: every replication id used, the
@@ -170,7 +171,8 @@ func (w *world) metaFindings(s chanState, ctx string) []finding {
 	if s.ID == "" {
 		return nil
 	}
-	if s.RdbLeft >= 0 && s.RdbSize >= 0 && !w.hasSnap(s.ID, s.RdbLeft, s.RdbSize) {
+	// (a declared snapshot of size 0 claims no byte: counted by the caller, not judged)
+	if s.RdbLeft >= 0 && s.RdbSize > 0 && !w.hasSnap(s.ID, s.RdbLeft, s.RdbSize) {
 		out = append(out, finding{Sig: "snapshot-offset-not-leaders", What: fmt.Sprintf(
 			"follower offers a snapshot (offset %d, size %d) under id %.8s, but no snapshot of that id exists at that offset (the id's snapshots: %v)",
 			s.RdbLeft, s.RdbSize, s.ID, w.snaps[s.ID]), Detail: map[string]any{"where": ctx, "follower_declares": s, "snapshots_of_id": w.snaps[s.ID]}})
@@ -192,6 +194,7 @@ func (a *checkStats) add(b checkStats) {
 	a.spotReads += b.spotReads
 	a.transientDropped += b.transientDropped
 	a.midChecks += b.midChecks
+	a.emptySnapshots += b.emptySnapshots
 }
 
 // checkFollower verifies everything the follower's channel declares valid under its current id:
@@ -391,7 +394,10 @@ func checkFollower(fc, lc syncer.Channel, fdir string, wd *world, rng *rand.Rand
 	}
 
 	// an offered snapshot must be complete and the leader's
-	if s.RdbLeft >= 0 && s.RdbSize >= 0 {
+	if s.RdbLeft >= 0 && s.RdbSize == 0 {
+		st.emptySnapshots++
+	}
+	if s.RdbLeft >= 0 && s.RdbSize > 0 {
 		res := readAt(fc, cur, s.RdbLeft-1, s.RdbSize, stall)
 		switch {
 		case res.openErr != nil:
